@@ -148,6 +148,9 @@ func FailurePatternPart(run *report.Run, st *Setup, n int, stream string, judge 
 		viaTest := r.Chance(1, 3)
 		pf.Tests = viaTest
 		s := spec.Gen(r, pf)
+		if !viaTest {
+			RepeatDeps(r, s, run)
+		}
 		if viaTest {
 			n := 0
 			for _, t := range s.Targets {
